@@ -2147,7 +2147,21 @@ func header() string {
        looked up in the map.  The definition does not test the oracle: the theorems assume
        GoSem.gmap_order_ok m ord (each key of the map exactly once).  A caller of such a function
        takes the callee's oracles as its own trailing parameters (one set per call site; not
-       inside loops). *)
+       inside loops);
+     * the []byte result of a method listed in regionMethods (bufiox.Writer.Malloc) is a WINDOW
+       into memory owned by the abstract object: GoSem.gregion = (start, length) in the object's
+       own address space; x[i] = v and binary.BigEndian.PutUintK(x[a:b], v) are the object's poke
+       operation, a parameter r_<obj>_poke : St -> Z -> bytes -> res St (position, bytes);
+       y := x[a:b] is a window again, len(x) its length, a window can be returned; every other
+       use (reading an element, copy, append, handing it to a callee) is refused, so a window
+       never stands for its contents.  Trusted: the window has the length the model of the method
+       says, stays valid for the rest of the call, and stores through it change nothing but the
+       object's state;
+     * a parameter of a struct type with fields of translated types is a copy: one binder per
+       field (stores into its map fields are refused);
+     * v, ok := m[k] is GoSem.gmap_find;
+     * for i, x := range s over a []byte value that the body does not store into: a Fixpoint by
+       structural recursion on the contents, i the index (strings — runes — are refused). *)
 From GV Require Import Lib.Bytes Lib.Res Lib.GoSem.
 Open Scope Z_scope.
 `
